@@ -5,17 +5,12 @@
 From Coq Require Import List Bool ZArith Arith Lia.
 Import ListNotations.
 Require Import MV.Model.PySem MV.Gen.SrcPlan.
-Require Import MV.Model.Orch MV.Model.PlannerA MV.Model.PyObj MV.Proofs.SrcTiePlanP.
+Require Import MV.Model.Orch MV.Model.PlannerA MV.Model.PyObj MV.Proofs.SrcTieLemP.
 Require Import MV.Model.PlannerL.
 Open Scope nat_scope.
 
 Local Notation Ok := PySem.Ok.
 Local Notation res := PySem.res.
-
-Lemma trek_set_order_twice : forall t a b, trek_set_order (trek_set_order t a) b = trek_set_order t b.
-Proof. reflexivity. Qed.
-Lemma trek_set_order_same : forall t, trek_set_order t (t_order t) = t.
-Proof. destruct t; reflexivity. Qed.
 
 (* ---------- LinkTrekker.order_links_by_frameworks ---------- *)
 (* if k not in self.order: self.order[k] = {x}  else: self.order[k].add(x)   is   aadd k x; the KeyError of the second
